@@ -198,6 +198,14 @@ Theorem dirnode_pins :
 Proof. exact dirnode_pins_ok. Qed.
 Print Assumptions dirnode_pins.
 
+(* blacklist.ProhibitedNode (what NodeMaker wraps a blacklisted node in) passes every cap
+   accessor through to the wrapped node: the models of create_from_cap and dir_store_read
+   treat it as transparent *)
+Theorem prohibited_node_pins :
+  prohibited_code_pins = expected_prohibited_code_pins.
+Proof. exact prohibited_pins_ok. Qed.
+Print Assumptions prohibited_node_pins.
+
 (* ---- satisfiable hypotheses, concrete chains (executable SHA-256) ---- *)
 Definition ex_wk : bytes := repeat 1 16.
 Definition ex_fp : bytes := repeat 2 32.
